@@ -1,5 +1,5 @@
 (** Model of stream-ciphers/chacha/src/rustcrypto_impl.rs as written (after the
-    fix: commits b6bd2ce, fd9ceb0, 26e2eb5, 7d93c53): [Buffer] with
+    fix: commits b6bd2ce, fd9ceb0, 26e2eb5, 7d93c53, 6ea9774): [Buffer] with
     [have]/[len]/[fresh], [try_apply_keystream] (lazy fill, overflow check,
     buffered prefix, wide chunks, block tail), [seek64]/[seek32], [try_seek],
     [try_current_pos], the nonce-word restore of the 12-byte-nonce variant.
@@ -56,9 +56,8 @@ Section Stream.
                  (s'', out', have', xor_bytes dd o ++ rest)
     end.
 
-  (** [Buffer::try_apply_keystream::<EnableWide>] *)
-  Definition apply_core (wide : bool) (b0 : buffer) (data : list N) : result * buffer * list N :=
-    let b := lazy_fill b0 in
+  (** [Buffer::try_apply_keystream::<EnableWide>], everything after the lazy fill *)
+  Definition apply_body (wide : bool) (b : buffer) (data : list N) : result * buffer * list N :=
     let have := have_usize (b_have b) in
     let dl := N.of_nat (length data) in
     let have_ready := N.min have dl in
@@ -81,7 +80,12 @@ Section Stream.
         tail_loop (chunks 64 (length data2) data2) s2 (b_out b) have1 in
       (ROk, Buf s3 outb (Z.of_N have3) l fresh', d0 ++ out_w ++ out_t).
 
-  (** [ChaChaAny::try_apply_keystream]: the 12-byte-nonce variant restores nonce word 0 *)
+  (** [Buffer::try_apply_keystream::<EnableWide>] *)
+  Definition apply_core (wide : bool) (b0 : buffer) (data : list N) : result * buffer * list N :=
+    apply_body wide (lazy_fill b0) data.
+
+  (** [ChaChaAny::try_apply_keystream]: the 12-byte-nonce variant restores nonce word 0
+      (d word 1) after the call, whatever its result (fix 26e2eb5) *)
   Definition try_apply (is12 : bool) (b : buffer) (data : list N) : result * buffer * list N :=
     if negb is12 then apply_core true b data
     else
